@@ -39,10 +39,10 @@ CHECKS = {
     "C10": dict(cat="exploration", tech="closed-form affine oracle in exact rational arithmetic over all 12 scale pairs × prefixes × sides",
                 text="in_unit between K/°C/°F/R with every registered prefix on either side is compared with the exact affine definitions; round trips, absolute zero, differences and cross-scale ordering are checked.",
                 note="Exact ties are not asserted (statement: up to rounding).", ref="3/C10"),
-    "C11": dict(cat="exploration", tech="exact-rational prefix model; identity where bases agree, 1e-9 numeric otherwise; full prefix × unit × exponent table",
+    "C11": dict(cat="exploration", tech="exact-rational prefix model; identity where bases agree, 1e-9 numeric otherwise; full prefix × unit × exponent table; anonymous prefixes first created through randomly chosen routes",
                 text="The statement's identities are checked for every registered prefix × registered unit × exponent −4…4, plus sampled prefix products/quotients/roots on compound units.",
                 note="Prefix values computed as exact Fractions from base/exponent fields.", ref="3/C11"),
-    "C12": dict(cat="exploration", tech="truth-table monitor in both argument orders, hash contract, sorted() vs oracle SI order",
+    "C12": dict(cat="exploration", tech="truth-table monitor in both argument orders, hash contract, sorted() vs oracle SI order; exact int/Decimal magnitudes beyond float and temperature scales judged by exact values",
                 text="All six comparison operators in both argument orders on pairs/triples of quantities, levels and measurements, judged by oracle SI values away from ties.",
                 note="Ties skipped and counted.", ref="3/C12"),
     "C13": dict(cat="exploration", tech="round-trip monitor judged by the size oracle; metamorphic spelling monitor; several imported-module sets in fresh processes",
@@ -51,22 +51,22 @@ CHECKS = {
     "C14": dict(cat="exploration", tech="analytic partial-derivative oracle in 50-digit decimal; post-conditions on Measurement operators",
                 text="Measurand and uncertainty of every Measurement operation are compared with first-order Gaussian propagation computed independently.",
                 note="x*x treated as independent inputs, as the statement says.", ref="3/C14"),
-    "C15": dict(cat="exploration", tech="round-trip monitor over every registered object × codec, in-process and cross-process",
+    "C15": dict(cat="exploration", tech="round-trip monitor over every registered object × codec, in-process and cross-process, plus dump→name→load and decode→declare→round-trip histories",
                 text="pickle (2–5), cloudpickle, copy, deepcopy, library JSON, codecs_installed, pydantic and the SQL composite form are round-tripped for every registered dimension, prefix and unit and for sampled quantities.",
                 note="Cross-process loads compare by normal form and identity with the freshly evaluated expression.", ref="3/C15"),
-    "C16": dict(cat="translation_validation", tech="bisimulation of the two loaded LALR tables + differential parsing with table-entry coverage",
+    "C16": dict(cat="translation_validation", tech="bisimulation of the two loaded LALR tables + differential parsing with table-entry coverage + start-state hook and scheduler-overlapped parses on the shipped engine",
                 text="A parser freshly built from measured.lark is compared with the shipped standalone parser: terminals, rules, %ignore, complete action/goto table bisimulation, and differential parsing of generated strings.",
                 note="Trusted: Lark 1.3.1 in /venv builds the reference parser.", ref="3/C16"),
-    "C17": dict(cat="exploration", tech="exception + registry-snapshot monitor over grammar-derived, mutated, random and arbitrary Unicode text",
+    "C17": dict(cat="exploration", tech="exception + registry-snapshot monitor over grammar-derived, mutated, random and arbitrary Unicode text, under several imported-module configurations (incl. the core package alone)",
                 text="Unit.parse/Quantity.parse are driven with four generators and a boundary list; only ParseError/KeyError may escape, results are deterministic, rejected inputs leave registries unchanged.",
                 note="Explored, not exhausted.", ref="3/C17"),
     "C18": dict(cat="exploration", tech="closed-form logarithmic oracle (50-digit decimal) as post-condition on level()/quantify()",
                 text="Levels for several logarithm families, references and magnitudes are compared with (k/prefix)·log_base(q/ref); monotonicity and both round trips are checked.",
                 note="Tolerance 1e-9 relative + absolute.", ref="3/C18"),
-    "C19": dict(cat="fault_enumeration", tech="registry snapshots around every definition call, bijection sweep, failpoints at real call boundaries, import-order replay",
+    "C19": dict(cat="fault_enumeration", tech="registry snapshots around every definition call, bijection sweep with resolver lookups, failpoints at real call boundaries, import-order replay, symbols resolved before they are declared",
                 text="Every definition API call in generated histories is bracketed by registry snapshots; failing calls (duplicate name/symbol, spaced symbol, injected faults at call boundaries) must leave every registry unchanged; declared names must bind faithfully.",
                 note="Faults injected only at call boundaries the real code has.", ref="3/C19"),
-    "C20": dict(cat="exploration", tech="deterministic line-granularity thread scheduler (preemption-bounded, complete per bound) with identity oracle",
+    "C20": dict(cat="exploration", tech="deterministic line-granularity thread scheduler (preemption-bounded, complete per bound) with identity oracle over intern tables and name/symbol registries",
                 text="Two and three threads are driven through first-time construction of dimensions, prefixes, units, logarithms and logarithmic units under all schedules up to a preemption bound plus random schedules.",
                 note="Line granularity is a subset of real CPython preemption points.", ref="3/C20"),
 }
